@@ -121,16 +121,9 @@ func (a *Analysis) decodeBufferUse(rep *Report, rule, key string, paths []*Path)
 			if e.Kind != EvReadBytes || e.Mode != "Next" {
 				return
 			}
-			ok := false
-			for _, c := range conds {
-				if availabilityGuard(c, e.Size) {
-					ok = true
-				}
-			}
-			if z, isC := e.Size.Int64(); isC && z == 0 {
-				ok = true
-			}
-			rep.Ob(rule, key+":Next@"+siteKey(e), ok, a.P.Pos(e.Pos), "buf.Next("+e.Size.Pretty()+") takes however many bytes are left (up to that many) and no dominating check establishes that exactly that many are available")
+			// the short outcome of an unguarded Next is a path of its own: exact consumption then means that path fails
+			ok := !e.Failed || pathKind(p) == "err"
+			rep.Ob(rule, key+":Next@"+siteKey(e), ok, a.P.Pos(e.Pos), "buf.Next("+e.Size.Pretty()+") takes however many bytes are left (up to that many); nothing establishes that exactly that many were available, before or after")
 		})
 		walkEvents(p.Events, func(e *Event, _ int) {
 			if e.Buf == nil && e.Kind != EvObj {
@@ -337,17 +330,11 @@ func (a *Analysis) errorDiscipline(rep *Report, key string, fn *ssa.Function, pa
 			if x.Kind != EvReadBytes || x.Mode != "Next" || len(x.Args) != 1 {
 				return
 			}
-			ok := false
-			for _, c := range conds {
-				if availabilityGuard(c, x.Args[0]) {
-					ok = true
-				}
-			}
-			if n, isC := x.Args[0].Int64(); isC && n == 0 {
-				ok = true
-			}
+			// either a dominating check establishes that the bytes are there (then there is no short outcome), or the
+			// short outcome is a path of its own, which must end in an error like any failed read
+			ok := !x.Failed || pathKind(p) == "err"
 			rep.Ob("E2-next-reports-nothing", key+":Next@"+siteKey(x), ok, a.P.Pos(x.Pos),
-				"buf.Next("+x.Args[0].Pretty()+") silently returns fewer bytes on a short buffer and no dominating check establishes that exactly that many bytes are available: a truncated message is accepted")
+				"buf.Next("+x.Args[0].Pretty()+") silently returns fewer bytes on a short buffer; no dominating check establishes that that many bytes are available and the length of the result is not checked afterwards: a truncated message is accepted")
 		})
 		// E3: the number of elements a decoder reads is exactly the count on the wire (never clamped or adjusted)
 		walkEvents(p.Events, func(x *Event, _ int) {
@@ -489,6 +476,25 @@ func (a *Analysis) CheckC15(rep *Report) {
 				key := fmt.Sprintf("%s.%s[%s]", ct.Name, fname, pl.Conds)
 				st, stored := stores[idx]
 				ne, isNested := nested[idx]
+				inline := false
+				if !stored && !isNested {
+					// a struct-valued part whose every field is stored inline (p.Sub.f = …) is assigned field by field
+					if sv, isStruct := ct.Struct.Field(idx).Type().Underlying().(*types.Struct); isStruct && sv.NumFields() > 0 {
+						got := map[int]bool{}
+						for _, e := range p.Events {
+							if e.Kind == EvStore {
+								if o, in, ok := nestedFieldAddr(e.Dst); ok && o == idx && e.Dst.Args[0].Op == "field" {
+									got[in] = true
+								}
+							}
+						}
+						inline = len(got) == sv.NumFields()
+					}
+				}
+				if inline {
+					rep.Ob("D1-must-assign", key, true, "", "")
+					continue
+				}
 				if !rep.Ob("D1-must-assign", key, stored || isNested, pos, "field "+fname+" is neither assigned nor decoded into on this success path: it keeps the receiver's previous content") {
 					continue
 				}
@@ -766,8 +772,66 @@ func availabilityGuard(c Cond, n *Val) bool {
 		if o.Op == "buflen" && condHolds([]Cond{c}, n, "<=", v.Args[side]) {
 			return true
 		}
+		// count <= buf.Len()/k  (k a constant >= 1) is  count*k <= buf.Len()
+		if k, ok := lenOverConst(o); ok {
+			other := v.Args[1-side]
+			if !saysAtMost(c, 1-side) {
+				continue
+			}
+			an, ao := affOf(n), affOf(other)
+			if an.Top || ao.Top {
+				continue
+			}
+			if an.Equal(ao) || an.Equal(ao.Scale(k)) {
+				return true
+			}
+		}
 	}
 	return false
+}
+
+// lenOverConst: o is buf.Len()/k with a constant k >= 1.
+func lenOverConst(o *Val) (int64, bool) {
+	if o.Op != "binop" || o.Name != "/" || len(o.Args) != 2 {
+		return 0, false
+	}
+	num := stripCT(o.Args[0])
+	for num.Op == "conv" {
+		num = stripCT(num.Args[0])
+	}
+	if num.Op != "buflen" {
+		return 0, false
+	}
+	if k, isC := o.Args[1].Int64(); isC && k >= 1 {
+		return k, true
+	}
+	// binary.Size of a value whose type parameter admits only fixed-size number types: a positive size, symbolic in the
+	// generic body (every instantiation, where it is a constant, is analysed as well)
+	if d := stripCT(o.Args[1]); d.Op == "call" && d.Name == "encoding/binary.Size" && len(d.Args) == 1 {
+		if t := stripIface(d.Args[0]).Type; t != nil {
+			if tp, isTP := t.(*types.TypeParam); isTP && allTermsFixed(tp) {
+				return 1, true
+			}
+		}
+	}
+	return 0, false
+}
+
+// saysAtMost: the condition (with its Taken flag) states  Args[small] <= Args[1-small].
+func saysAtMost(c Cond, small int) bool {
+	op := c.V.Name
+	if !c.Taken {
+		neg := map[string]string{"<": ">=", ">=": "<", ">": "<=", "<=": ">"}
+		n, ok := neg[op]
+		if !ok {
+			return false
+		}
+		op = n
+	}
+	if small == 0 {
+		return op == "<=" || op == "<"
+	}
+	return op == ">=" || op == ">"
 }
 
 // spuriousRejections: error paths of a decoder that are not caused by a failed read, a failed nested Decode or an
@@ -785,7 +849,7 @@ func (a *Analysis) spuriousRejections(paths []*Path) []string {
 			for o.Op == "conv" {
 				o = stripCT(o.Args[0])
 			}
-			if o.Op != "buflen" {
+			if _, div := lenOverConst(o); o.Op != "buflen" && !div {
 				continue
 			}
 			// the direction taken must mean: more is needed than the buffer holds
